@@ -24,6 +24,16 @@ import common
 from common import Check, main_wrapper
 
 KEY_SCALE_BASE = "scale-base-alignment-unchecked:generate_biases-has-no-check_alignment"
+# compiled networks with a 16-bit LEAKY_RELU whose alpha is negative: the lowering hands the generator an int32 MUL whose OFM scale
+# is negative (the alpha constant carries the scale alpha); the emitter masks it into the unsigned field. Repair: C16-20.
+KEY_NEG_ALPHA = "int16-lrelu-negative-alpha-negative-ofm-scale"
+
+
+def truncation_only(d):
+    """Lean's verdict says: the list holds scales no register can take (`trunc` = every `fits` complaint) and the stream encodes
+    exactly the list with those scales reduced modulo 2^32 (`residual` = 0); decode, stop and alignment are in order."""
+    return (d.get("decode") == "ok" and d.get("stop") == 1 and d.get("align") == 0 and d.get("scalebase") == 0
+            and d.get("trunc", 0) > 0 and d.get("fits") == d.get("trunc") and d.get("residual") == 0)
 
 
 # ------------------------------------------------------------------------------------------------
@@ -217,7 +227,11 @@ def legal_batch(job):
 # malformed stream: one defect injected into an otherwise legal list
 
 DEFECTS = ["pool_scale", "nhcwb16_addr", "nhwc16_addr", "stride_size", "weight_addr", "weight_len", "bias_len", "dma_u55", "lut_index",
-           "broadcast", "reduce_sum_layout", "scalar_range", "no_kernel", "pool_no_padding", "tile_addr"]
+           "broadcast", "reduce_sum_layout", "scalar_range", "no_kernel", "pool_no_padding", "tile_addr", "ew_neg_scale"]
+# defects for which the generator has no check and no hardware encoding exists: the list is outside the property's quantifier, the
+# generator masks the field (like the edge probes below). Accepted silently is the recorded behaviour; what is still demanded is that
+# the stream encodes the list with the field reduced modulo 2^32 and nothing else differs (`truncation_only`).
+TRUNCATING = ("ew_neg_scale",)
 
 
 def inject(rng, ops, arch, defect):
@@ -354,6 +368,26 @@ def inject(rng, ops, arch, defect):
             except AssertionError:
                 return False
         return True
+    if defect == "ew_neg_scale":
+        # an elementwise ADD / SUB / MUL whose global OFM scale is outside [0, 2^32): through an explicit `rescale` (negative, or
+        # 2^32 and above), or (MUL) through a negative quantisation scale of the second operand, which is how the graph optimiser
+        # produced it
+        cands = [o for o in ews if o.sub_op_type in (a.NpuElementWiseOp.MUL, a.NpuElementWiseOp.ADD, a.NpuElementWiseOp.SUB)
+                 and (o.activation is None or o.activation.op_type not in (a.NpuActivationOp.TANH, a.NpuActivationOp.SIGMOID))]
+        if not cands:
+            return False
+        o = rng.choice(cands)
+        q = [f.quantization for f in (o.ifm, o.ifm2, o.ofm) if f is not None]
+        if (o.sub_op_type == a.NpuElementWiseOp.MUL and o.rescale is None and len(q) == 3 and rng.random() < 0.5
+                and all(x is not None and x.scale_f32 is not None for x in q)):
+            o.ifm2.quantization = a.NpuQuantization(scale_f32=-float(o.ifm2.quantization.scale_f32), zero_point=o.ifm2.quantization.zero_point)
+            if o.ifm2_scalar is not None:
+                o.ifm2_scalar = -o.ifm2_scalar       # keeps the quantised scalar (value / scale) what it was
+        else:
+            # below 0 and at / above 2^32: both ends of the unsigned 32-bit field
+            o.rescale = (rng.choice([-1, -1177933312, -(1 << 31), -(1 << 40) + 5, 1 << 32, (1 << 32) + 7, 45992645995, (1 << 63) + 1]),
+                         rng.randint(0, 40))
+        return True
     if defect == "pool_no_padding":
         cands = [o for o in blocks if isinstance(o, a.NpuPoolingOperation)]
         if not cands:
@@ -470,6 +504,18 @@ def edge_cases():
                                     [x // 4 * 4 for x in op.ofm.tiles.addresses])
     op.ofm.strides = None
     out.append(("activation_min_40000_int32", 3, [op], "illegal"))
+    # an elementwise MUL with an explicit negative rescale (the OFM scale of the int16 negative-alpha LEAKY_RELU network, given
+    # through the public API): no unsigned 32-bit field holds it, the generator masks it (negative_ofm_scale_witness)
+    rng = random.Random(11)
+    for _ in range(200):
+        try:
+            ops = c06_ops.gen_op_list(rng, arch[2], 1)
+        except OverflowError:
+            continue
+        if ops and isinstance(ops[0], a.NpuElementWiseOperation) and ops[0].sub_op_type == a.NpuElementWiseOp.MUL:
+            ops[0].rescale = (-1177933312, 30)
+            out.append(("ew_mul_negative_ofm_scale", 2, ops, "illegal"))
+            break
     return out
 
 
@@ -607,9 +653,14 @@ def main():
     # families that aim at the branches of high_level_command_to_npu_op.py (operand swap, stand-alone scale tensors, TRANSPOSE,
     # tile padding, clamp behind a forced zero point / overridden scale); their streams are judged by (b) and (c) as well
     outs += pipe_common.run_corpus(ck, 660 if ck.thorough else 55, profiles=["hl2npu:"], want={"extra": pipeline_extra}, corpus_first=False)
+    # LEAKY_RELU with a negative alpha (index 0 = the witness of finding int16-lrelu-negative-alpha-negative-ofm-scale): on a tree with
+    # repair C16-20 the 16-bit operators stay on the CPU and the 8-bit ones (table lookup) are the regression population
+    outs += pipe_common.run_corpus(ck, 120 if ck.thorough else 12, profiles=["hl2npu:neg_alpha"], want={"extra": pipeline_extra}, corpus_first=False)
     plines, pown = [], []
     for o in outs:
         ck.count("net_status_" + str(o.get("status", "harness-exception")))
+        for t_ in o.get("src_tags") or []:
+            ck.count("src_tag_" + t_)
         if "harness_exception" in o:
             raise common.InfraError("pipeline worker failed:\n" + o["harness_exception"])
         for si, e in enumerate(o.get("extra") or []):
@@ -626,8 +677,14 @@ def main():
         ok = d.get("decode") == "ok" and d.get("stop") == 1 and d.get("cmp") == 0 and d.get("fits") == 0 and d.get("align") == 0 \
             and d.get("scalebase") == 0
         if not ok:
+            # Vela's own front end handed its generator an operation no register can hold: a finding whatever the generator did
+            # with it. Recorded under its key when (Lean) nothing but the masked scale differs, every such operation is an int32
+            # MUL, and the source network has the construct the key names.
+            key = KEY_NEG_ALPHA if (truncation_only(d) and d.get("truncmul32") == d.get("trunc")
+                                    and "int16-leaky-relu-negative-alpha" in (o.get("src_tags") or [])) else None
             ck.violation(f"stream of compiled network {o['idx']} ({o['profile']}, {o.get('opts')}) does not encode its NpuOperation list: "
-                         + d["raw"][d["raw"].find("|") + 2:][:260],
+                         + ("an operation outside the legal range was built and its scale masked: " if key else "")
+                         + d["raw"][d["raw"].find("|") + 2:][:260], key=key, replay=
                          {"profile": o["profile"], "seed": o["seed"], "index": o["idx"], "opts": o.get("opts"), "network": o.get("desc"),
                           "stream": si, "verdict": d["raw"][:1500], "request": e["line"][:20000]})
         if not d["model_eq"]:
@@ -662,6 +719,9 @@ def main():
     for m, a in zip(acc_mal, ck.model([m["spec_line"] for m in acc_mal]) if acc_mal else []):
         d = parse(a)
         bad = not (d.get("decode") == "ok" and d.get("stop") == 1 and d.get("cmp") == 0 and d.get("align") == 0 and d.get("scalebase") == 0)
+        if m["defect"] in TRUNCATING:
+            ck.count("malformed_%s_%s" % (m["defect"], "truncated" if truncation_only(d) else ("encoded" if not bad else "other")))
+            bad = bad and not truncation_only(d)
         if bad:
             ck.violation(f"a list with injected defect '{m['defect']}' is accepted and its stream breaks the Spec: " + d["raw"][d["raw"].find("|") + 2:][:240],
                          {"defect": m["defect"], "malformed_case": {"seed": ck.seed, "index": m["idx"]}, "request": m["spec_line"][:20000],
@@ -686,6 +746,10 @@ def main():
         else:
             # outside the quantifier: record whether the generator truncates silently (cmp>0 and fits>0) as the witness theorems say
             ck.count("edge_%s_%s" % (name, "truncated" if d.get("cmp", 0) > 0 else "encoded"))
+            if name == "ew_mul_negative_ofm_scale" and not truncation_only(d):
+                # the one illegal field for which the Spec says what "masked, nothing else wrong" means
+                ck.violation("an elementwise MUL with a negative OFM scale is accepted and its stream is not the list with the scale "
+                             "reduced modulo 2^32: " + d["raw"][d["raw"].find("|") + 2:][:300], {"edge_case": name, "verdict": d["raw"][:1200]})
     # ---- correspondence broken but the Spec accepts every real stream ----------------------------------
     if model_diff and not any(v[2] for v in ck.violations):
         c, d = min(model_diff, key=lambda x: x[0]["meta"]["n"])
